@@ -195,7 +195,7 @@ def st_case(draw):
             if v is not None:
                 params[name] = v
     return {"cls": cls, "family": fam, "shape": shape, "nc": nc, "dtype": dtype, "seed": seed,
-            "scale": scale, "params": params, "plain_run": plain}
+            "scale": scale, "params": params, "plain_run": plain, "layout": draw(st.sampled_from(A.LAYOUTS))}
 
 
 # ------------------------------------------------------------------ check
@@ -246,6 +246,7 @@ def check_case(case):
     shape, nc, params = case["shape"], case["nc"], dict(case["params"])
     nd = len(shape)
     ksp, true_maps = make_data(case)
+    ksp = A.relayout(ksp, case.get("layout", "c"))       # caller's k-space in the generated memory layout (same values)
     seed = derive_seed("C17", case["seed"], case["nc"], *shape)
     eff = dict(DEFAULTS)
     eff.update(params)
